@@ -322,6 +322,7 @@ GLOBAL_RULES = [
     ('R2', r'\bfutures::io::SeekFrom::', 'vio::SeekFrom::'),
     ('R2', r'(?<![\w:])SeekFrom::', 'vio::SeekFrom::'),
     ('R2', r'\bstd::ops::Bound::', 'vio::Bound::'),
+    ('R2', r', RandomState>', '>'),
     # D2: async erasure
     ('D2', r'\.await\b', ''),
     ('D2', r'\bread_varint_async\b', 'read_varint'),
@@ -725,5 +726,31 @@ def weave(fn, sc, log, lost):
 
 
 def item_text(toks):
-    lines = canon_lines(toks)
-    return '\n'.join('    ' * i + t for i, t in lines)
+    """struct/enum/const item, one field per line; D3: visibility normalised to `pub` (items and named fields)"""
+    kw_i = next(i for i, t in enumerate(toks) if t.kind == 'ident' and t.text in ('struct', 'enum', 'const', 'static', 'type'))
+    kw = toks[kw_i].text
+    head = toks[kw_i:]
+    try:
+        b = next(i for i, t in enumerate(head) if t.text == '{')
+    except StopIteration:
+        return 'pub ' + join(head)
+    e = match_close(head, b)
+    fields = split_top(head[b + 1:e])
+    out = ['pub ' + join(head[:b]) + ' {']
+    for f in fields:
+        if not f:
+            continue
+        f = [t for t in f]
+        # drop existing visibility
+        while f and (f[0].text in ('pub', 'crate') or f[0].text in '()' and False):
+            f = f[1:]
+            if f and f[0].text == '(':
+                c = match_close(f, 0)
+                f = f[c + 1:]
+        txt = join(f)
+        txt = re.sub(r'^\s+', '', txt)
+        if kw == 'struct':
+            txt = 'pub ' + txt
+        out.append('    ' + txt + ',')
+    out.append('}')
+    return '\n'.join(out)
